@@ -564,6 +564,12 @@ class Interp:
                         return Const(bool(fn(l.value, rs[0].value)))
                     except Exception:
                         return BOOL
+            if isinstance(e.ops[0], (ast.Eq, ast.NotEq)) and isinstance(l, Obj) and isinstance(rs[0], Obj):
+                a, b = (l, rs[0]) if l.kind == "tokentype" else (rs[0], l)
+                if a.kind == "tokentype" and b.kind == "classattr" and b.name.startswith("Token.") and a.name \
+                        and a.name.isupper() and a.name not in ("KEYWORD", "SOFT_KEYWORD", "ANY_TOKEN"):
+                    same = a.name == b.name[6:]
+                    return Const(same if isinstance(e.ops[0], ast.Eq) else not same)
             if isinstance(e.ops[0], (ast.Is, ast.IsNot)) and isinstance(rs[0], NoneV):
                 ms = members(l)
                 if ms and all(isinstance(m, NoneV) for m in ms):
@@ -587,12 +593,17 @@ class Interp:
     def getattr(self, m: V, attr: str, e, fr) -> V:
         if isinstance(m, Tok):
             if attr == "string":
+                if m.kind.startswith("lit:"):
+                    return Const(m.kind[4:])  # a literal token's text is the literal
                 return Scalar("Str", f"{m.label}.string")
             if attr in ("start", "end"):
                 return PosPair(m.label, attr)
             if attr == "line":
                 return STR
             if attr == "type":
+                if m.kind.startswith("lit:"):
+                    lit = m.kind[4:]
+                    return Obj("tokentype", "NAME" if (lit[:1].isalpha() or lit[:1] == "_") else "OP")
                 return Obj("tokentype", m.kind)
             if "TokenInfo." + attr in self.funcs:
                 return Obj("method", "TokenInfo." + attr, m)
@@ -1896,7 +1907,12 @@ class Interp:
         shape = self.shape_of(cls, sig, given)
         if self.ctor_hook is not None:
             self.ctor_hook(cls, given, kwargs, fr, e)
-        return Node(cls, ctx, sub, frozenset(missing), shape, "", located)
+        locsrc = ()
+        if attrs:
+            def bases(k):
+                return tuple(sorted({m.base for m in members(kwargs.get(k, BOT)) if isinstance(m, LocInt)}))
+            locsrc = (bases("lineno"), bases("end_lineno"))
+        return Node(cls, ctx, sub, frozenset(missing), shape, "", located, locsrc)
 
     def deep_of(self, v: V) -> frozenset:
         out: set = set()
